@@ -34,17 +34,17 @@ Theorem C08_send_uniform :
 Proof. exact send_uniform. Qed.
 Print Assumptions C08_send_uniform.
 
-(* exactly one report per destination failing on a non-report message, all recognisable
-   as reports, offered after the message itself *)
+(* exactly one report per destination failing on a message that was not logged as a report,
+   offered after the message itself, whatever the global fields; the destinations can
+   recognise them as reports unless a global field named message_type overwrites their type *)
 Theorem C08_report_count :
   forall c s m,
-  any_added s = true -> fget K_mtype (globals s) = None ->
-  is_report (fupdate m (globals s)) = false ->
+  any_added s = true -> is_report m = false ->
   exists reports,
     ext (fupdate m (globals s) :: reports) s (send c s m) /\
     length (fupdate m (globals s) :: reports) =
       1 + length (flat_map (failure_of (fupdate m (globals s))) (dests s)) /\
-    Forall (fun r => is_report r = true) reports.
+    (fget K_mtype (globals s) = None -> Forall (fun r => is_report r = true) reports).
 Proof. exact OutputProofs.C08_report_count. Qed.
 Print Assumptions C08_report_count.
 
@@ -52,7 +52,7 @@ Print Assumptions C08_report_count.
    exception's class name, its safeunicode text and the rendering of the message *)
 Theorem C08_report_content :
   forall c s m,
-  any_added s = true -> is_report (fupdate m (globals s)) = false ->
+  any_added s = true -> is_report m = false ->
   exists reports,
     ext (fupdate m (globals s) :: reports) s (send c s m) /\
     Forall2 (is_report_of (globals s) (fupdate m (globals s)))
@@ -72,10 +72,11 @@ Theorem C08_report_fields :
 Proof. exact is_report_of_content. Qed.
 Print Assumptions C08_report_fields.
 
-(* failures while delivering a report are not reported *)
+(* failures while delivering a message logged as a report are not reported, whatever the
+   global fields are (the guard is evaluated before they are merged in) *)
 Theorem C08_reports_not_reported :
   forall c s m,
-  any_added s = true -> is_report (fupdate m (globals s)) = true ->
+  any_added s = true -> is_report m = true ->
   ext [fupdate m (globals s)] s (send c s m).
 Proof. exact OutputProofs.C08_reports_not_reported. Qed.
 Print Assumptions C08_reports_not_reported.
